@@ -138,7 +138,7 @@ func C08(c *hx.Ctx) {
 	c.DesignCheck(tlc.Opts{Module: "Lzma2Writer", Cfg: "Lzma2Writer_mc.cfg", Timeout: 3 * time.Minute}, []string{"BeginWrite", "BeginFlush", "BeginClose", "EmitChunk", "EndWrite", "EndFlush", "EndClose"})
 	configTable(c, "lzma2")
 	small := map[string]int{"W0": 0, "W1": 0, "W273": 0, "W4Kz": 0, "F": 0, "C": 0}
-	big := map[string]int{"W0": 0, "W1": 0, "W4K": 0, "W70Kr": 2, "W70Kt": 2, "W140Kn": 2, "W2M": 3, "F": 0, "C": 0}
+	big := map[string]int{"W0": 0, "W1": 0, "W4K": 0, "W70Kr": 2, "W70Kt": 2, "W140Kn": 2, "W80Krr": 2, "W2M": 3, "F": 0, "C": 0}
 	hs := genHistories(c, tokenSet(small), c.Pick(5, 6), 0, 2)
 	hb := genHistories(c, tokenSet(big), c.Pick(5, 6), c.Pick(3, 5), 1)
 	if len(hs) == 0 || len(hb) == 0 {
